@@ -123,6 +123,9 @@ type Gen struct {
 	ghostVals  map[string]CV
 	paramVals  map[string]CV
 	retNames   []string
+	foralls    []*forallFact
+	exIDs      map[string]string
+	instTerms  map[string][]string
 }
 
 func (g *Gen) newHV(name, so, term string, kind int, parents ...*HV) *HV {
@@ -392,7 +395,7 @@ func (g *Gen) instFrames(hv *HV, r string) {
 
 func (g *Gen) readHeap(st *State, name, ref string) string {
 	hv := g.hv(st, name)
-	if strings.HasPrefix(g.heapSort(name), "(Array") {
+	if ref != "" && strings.HasPrefix(g.heapSort(name), "(Array") {
 		g.instFrames(hv, ref)
 		if ref != "RK" {
 			g.instFrames(hv, "RK")
